@@ -127,4 +127,9 @@ theorem C06_inspect_shape (n : Node) (info : Info) (h : inspect n = .ok info) :
           first | (cases h; rfl) | cases h
   all_goals cases h
 
+/-- the tables and constants this property's theorems are stated over were READ OFF the current source on this run (a fact
+that can no longer be read is replaced by its expected value so that the model keeps compiling; it is then listed in
+`Facts.notExtracted` and this theorem fails) -/
+theorem C06_facts_extracted : ∀ n ∈ ["varsigTable", "dlgTag", "invTag"], n ∈ Ucan.Facts.extracted := by decide
+
 end Ucan.Envelope
